@@ -86,6 +86,7 @@ class Contract:
     self.assumptions = []
     self.canaries = []                 # clauses that must NOT be provable
     self.strings = 'abstract'          # or 'native'
+    self.target = None                 # real function, when the registry name differs
     self.skip_proof = None             # reason when no proof is attempted
     self.setup = None                  # callable(exec, ctx): extra env set-up
     self.local_kinds = {}              # local variable name -> kind
